@@ -8,6 +8,7 @@ trees) with each other and with the caller view predicted by the effects model (
 answers of the shared run with those of the fresh runs."""
 from __future__ import annotations
 
+import json
 import math
 from fractions import Fraction
 
@@ -82,6 +83,33 @@ PPKEYS = ["initial_budget_allocation", "resoluteness", "tie_breaking", "initial_
 LOADS_CALLS = ["phragmen_loads", "phragmen_loads", "phragmen_loads_irr", "increase_phragmen", "completion_phragmen"]
 WRAPPER_CALLS = ["increase", "increase", "increase_irr", "increase_phragmen", "completion", "completion_irr",
                  "popularity", "swc", "eff_support", "eff_supports"]
+
+
+# numeric values a caller may hold in payment functions, loads, voter budgets: ordinary ones, zeros of every type, tiny
+# non-zero values (zero at CHECK_ROUND_PRECISION), negative values, huge integers, fractions with large denominators
+ORDINARY = ["int:0", "int:0", "int:1", "int:2", "mpq:1/2", "mpq:1/3", "mpq:3/2"]
+EXOTIC = ["mpq:1/250", "Fraction:1/1000", "float:5e-17", "float:-1e-12", "float:0.0", "Fraction:0/1", "mpq:0/1", "int:-1",
+          "mpq:-1/3", "int:1000000000000000000", "Fraction:100000000000000000001/100000000000000000000",
+          "mpq:1/1000000007", "float:0.004", "mpq:-1/500", "float:0.5", "Fraction:1/2"]
+
+
+def val(spec):
+    """'type:value' -> number of exactly that Python type (plain 'n/d' strings of older cases: int or mpq)"""
+    import gmpy2
+
+    if ":" not in spec:
+        return pb.num(spec)
+    t, v = spec.split(":", 1)
+    if t == "int":
+        return int(v)
+    if t == "float":
+        return float(v)
+    f = Fraction(v)
+    return gmpy2.mpq(f.numerator, f.denominator) if t == "mpq" else f
+
+
+def pick(rng, exotic=0.35):
+    return rng.choice(EXOTIC) if rng.random() < exotic else rng.choice(ORDINARY)
 
 
 def budget(tier):
@@ -169,6 +197,11 @@ def gen(rng, i, tier):
             "itars": sorted(rng.sample(["t0", "t1", "t2"], rng.randrange(0, 4)))}
     if i % 5 == 1:
         calls[rng.randrange(k)] = "category"
+    exo = rng.choice([0.0, 0.2, 0.5])
+    if i % 5 == 2:
+        # payment functions / loads with tiny non-zero, negative, huge and oddly typed entries
+        exo = 0.6
+        calls[rng.randrange(k)] = rng.choice(["validate_price", "validate_price", "priceable_payments", "phragmen_loads"])
     if i % 5 == 3:
         calls[rng.randrange(k)] = rng.choice(["cohesive", "jr", "stats"])   # readers of the instance itself
     init_kind = rng.choice(INIT_KINDS)
@@ -186,11 +219,15 @@ def gen(rng, i, tier):
             "multi": rng.random() < 0.4, "init": sorted(init), "alloc": sorted(alloc),
             "sat": rng.choice(["cost", "card"]), "calls": calls,
             "step": pb.qs(rng.choice([Fraction(1), Fraction(1, 2), B / 4])),
-            "pkeys": pkeys, "plkeys": [keyset(PKEYS, 0.12), keyset(PKEYS, 0.12)], "ppkeys": ppkeys,
+            "pkeys": pkeys, "plkeys": [sorted(keyset(PKEYS, 0.12) + (["voter_budget_increment"] if rng.random() < 0.15 else [])),
+                       keyset(PKEYS, 0.12)], "ppkeys": ppkeys,
             "pinit": sorted(pinit), "pres": rng.random() < 0.5, "panalytics": rng.random() < 0.5,
             "init_kind": init_kind,
             "meta": meta,
-            "loads": [pb.qs(rng.choice([0, 0, 1, 1, Fraction(1, 2), Fraction(1, 3), 2])) for _ in range(n)],
+            "loads": [pick(rng, exo) for _ in range(n)],
+            "pay": [[pick(rng, exo) if rng.random() < 0.4 else "int:0" for _ in range(m)] for _ in range(n)],
+            "vbudget": rng.choice([None, None, pick(rng, 0.5), "mpq:%s" % pb.qs(B / n), "float:%r" % float(B / n)]),
+            "pinc": rng.choice(["int:1", "mpq:1/2", "int:2"]),
             "explicit_init": rng.random() < 0.5, "explicit_res": rng.choice([None, None, True, False]),
             "solver": any(c in SOLVER_CALLS for c in calls)}
 
@@ -211,14 +248,18 @@ def snapshot(obj, seen=None):
         return ("s", "None")
     if isinstance(obj, bool):
         return ("s", "True" if obj else "False")
+    # numbers: exact value AND type (a bare leaf is a Python int; every other numeric type wraps its exact value)
+    if type(obj) is int:
+        return ("q", obj, 1)
     if isinstance(obj, (int, Fraction)) or isinstance(obj, type(gmpy2.mpq(1))) or isinstance(obj, type(gmpy2.mpz(1))):
         f = pb.F(obj)
-        return ("q", f.numerator, f.denominator)
+        return ("num:" + type(obj).__name__, [("q", f.numerator, f.denominator)])
     if isinstance(obj, float):
         if math.isinf(obj) or math.isnan(obj):
             return ("s", repr(obj))
         f = Fraction(obj)
-        return ("q", f.numerator, f.denominator)
+        return ("num:float" + ("-0" if obj == 0 and math.copysign(1, obj) < 0 else ""),
+                [("q", f.numerator, f.denominator)])
     if isinstance(obj, str):
         return ("s", "str:" + obj)
     if isinstance(obj, type) or callable(obj) and not hasattr(obj, "__dict__"):
@@ -335,11 +376,13 @@ def build(case):
 
     # one load per ballot object of the profile (len(prof): distinct ballots for a multiprofile)
     ld = case.get("loads", [])
-    loads = [pb.num(ld[j]) if j < len(ld) else 0 for j in range(len(prof))]
+    loads = [val(ld[j]) if j < len(ld) else 0 for j in range(len(prof))]
     from pabutools.rules import greedy_utilitarian_welfare as _g, sequential_phragmen as _p
     rule_seq = [method_of_equal_shares, _g]
     rule_seq2 = [method_of_equal_shares, _p]
-    pay = [{p: 0 for p in inst} for _ in prof]
+    pm = case.get("pay", [])
+    pay = [{p: (val(pm[v][j]) if v < len(pm) and j < len(pm[v]) else 0) for j, p in enumerate(projs)}
+           for v in range(len(prof))]
 
     def mk(keys):
         d = {"sat_class": sat}
@@ -355,6 +398,8 @@ def build(case):
             elif k_ == "sat_profile":
                 d.pop("sat_class", None)
                 d[k_] = satprof
+            elif k_ == "voter_budget_increment":
+                d[k_] = val(case.get("pinc", "int:1"))
             elif k_ == "initial_loads":
                 d[k_] = loads
         return d
@@ -525,10 +570,12 @@ def do_call(name, o, case):
         return bool(r.validate()) if r.validate() is not None else None
     if name == "validate_price":
         nv = max(1, prof.num_ballots())
-        return an.validate_price_system(inst, prof, alloc, pb.num(pb.F(case["budget"]) / nv), o["pay"])
+        vb = val(case["vbudget"]) if case.get("vbudget") else pb.num(pb.F(case["budget"]) / nv)
+        return an.validate_price_system(inst, prof, alloc, vb, o["pay"])
     if name == "priceable_payments":
         nv = max(1, prof.num_ballots())
-        r = an.priceable(inst, prof, alloc, pb.num(pb.F(case["budget"]) / nv), o["pay"])
+        vb = val(case["vbudget"]) if case.get("vbudget") else pb.num(pb.F(case["budget"]) / nv)
+        r = an.priceable(inst, prof, alloc, vb, o["pay"])
         return str(r.status)
     if name == "project_loss":
         kw = dict(params)
@@ -596,10 +643,24 @@ def tree(t):
 
 
 def coq_case(case, o):
+    """Every distinct tree of the case is written once and let-bound; a post-snapshot (fresh answer) that is
+    structurally equal to the pre-snapshot (shared answer) would be serialised to the very same text anyway, so Coq
+    still evaluates tree_eqb on the same two terms -- only the case file is a third of the size."""
     entries = lst([str(ENTRY[c]) for c in case["calls"]])
-    return "(mkCase (%s%%nat) %s %s %s %s)" % (
-        entries, lst(o["pre"], tree), lst([lst(p, tree) for p in o["posts"]]),
-        lst(o["shared"], tree), lst(o["fresh"], tree))
+    names, binds = {}, []
+
+    def ref(t):
+        key = json.dumps(t)
+        if key not in names:
+            names[key] = "t%d" % len(names)
+            binds.append("let %s := %s in" % (names[key], tree(t)))
+        return names[key]
+
+    pre = lst(o["pre"], ref)
+    posts = lst([lst(p, ref) for p in o["posts"]])
+    shared = lst(o["shared"], ref)
+    fresh = lst(o["fresh"], ref)
+    return "(%s mkCase (%s%%nat) %s %s %s %s)" % (" ".join(binds), entries, pre, posts, shared, fresh)
 
 
 def nontrivial(case, o):
